@@ -156,6 +156,39 @@ theorem stack_const_then_single_write_fails (b b' w : Mapping) (mid post : List 
   stack_const_then_write_fails_exact b b' b' w mid post k k0 v old [] [] hk hl hmid
     (by simpa using hes) hs rfl
 
+/-! ### 2b. Which key a failed merge names -/
+
+/-- A failed merge names the **first** offending entry in the order in which the layer lists
+its entries: the entries before it merged, and its stripped key is present and constant at that
+point.  (The error is a function of the two mappings' entry order; when one layer overwrites
+several constants it is always the same one that is reported.) -/
+theorem merge_error_names_first_violation (m other : Mapping) (e : Err)
+    (h : m.merge other = .error e) :
+    ∃ pre k v post m1, other.es = pre ++ (k, v) :: post ∧
+      m.mergeEntries other.ck other.ok pre = .ok m1 ∧
+      e = .constKey k.stripPrefix.1 ∧ k.stripPrefix.1 ∈ m1.ck ∧
+      (lookup k.stripPrefix.1 m1.es).isSome := by
+  rw [merge_eq] at h
+  generalize other.es = es at h ⊢
+  induction es generalizing m with
+  | nil => simp [Mapping.mergeEntries] at h
+  | cons kv es ih =>
+    obtain ⟨k, v⟩ := kv
+    rw [mergeEntries_cons] at h
+    cases h1 : m.insertImpl k v (decide (k ∈ other.ck)) (decide (k ∈ other.ok)) with
+    | error e1 =>
+      simp only [h1] at h
+      cases h
+      obtain ⟨he, hl, hc⟩ := (C09.insert_error_iff _ _ _ _ _ _).1 h1
+      exact ⟨[], k, v, es, m, rfl, rfl, he, hc, hl⟩
+    | ok m1 =>
+      simp only [h1] at h
+      obtain ⟨pre, k', v', post, m2, a, b, c, d, f⟩ := ih m1 h
+      refine ⟨(k, v) :: pre, k', v', post, m2, by rw [a]; rfl, ?_, c, d, f⟩
+      rw [mergeEntries_cons, h1]
+      exact b
+
+
 /-! ### 3. Contrapositive: a stack that merges never wrote to the constant -/
 
 theorem stack_ok_no_later_write (b r : Mapping) (ms : List Mapping) (k0 : Key) (old : Value)
